@@ -106,8 +106,8 @@ const c18Block = 400
 func c18layout(env *core.Env) (enumBlocks, randBlocks, conc int) {
 	c18lists()
 	enumBlocks = (len(c18enum) + c18Block - 1) / c18Block
-	randBlocks = env.Pick(8000, 200000) / c18Block
-	conc = env.Pick(60, 1500)
+	randBlocks = env.Pick(40000, 600000) / c18Block
+	conc = env.Pick(200, 3000)
 	return
 }
 
